@@ -7,11 +7,13 @@ import json, os
 
 VERIF = os.path.dirname(os.path.dirname(os.path.abspath(__file__)))
 
+LONG = " In addition (not exhaustive, single fixed executions with the same oracle after every step): "
+
 CHECKS = {
  "C01": dict(engine="E1+E2", ref="8/C01",
    technique="explicit-state BFS over real trees (all 1001 balance factors) + deviation-bounded DFS over long adversarial histories, reference sorted set as oracle",
    text="Every operation history over K tagged keys is explored to closure on the real stree.Tree for every beta in 0..1000, states merged by tree shape+max; all observers compared with a sorted-slice reference after every transition; long rebuild-forcing histories explored with all <=d single-step deviations.",
-   note="Small scope: K keys, bounded deviations; canonical key = shape+max+beta read through an overlay-added hook; comparator is a total order."),
+   note="Small scope: K keys, bounded deviations; canonical key = shape+max+beta+a reflective fingerprint of the struct; clone probes incl. a divergent clone; an unmerged enumeration of all histories to depth 4/5 on 3 keys; comparator is a total order."),
  "C02": dict(engine="E1+E2", ref="8/C02",
    technique="explicit-state BFS + deviation-bounded DFS on the real tree, exact integer depth oracle after every step",
    text="Depth bound checked with exact big-integer arithmetic after every transition of the C01 state spaces, after every step of long adversarial histories with <=d deviations, and after every step of deep histories (1100-1700 keys quick, 6000-24000 thorough) at the strict and the near-1000 balance factors where a wrong scapegoat choice or limit only shows late; New(n keys) height checked for every n up to the bound.",
@@ -23,23 +25,23 @@ CHECKS = {
  "C04": dict(engine="E1", ref="8/C04",
    technique="explicit-state BFS over real omap.Map histories, sorted reference map oracle incl. all iterator walks and seeks per state",
    text="All Set/Delete/Clear histories over K keys to closure, natural and reversed comparator, every Seek target and full Next/Prev walk per state, zero Map and copy semantics.",
-   note="Small scope K<=6 keys, 2 values."),
+   note="Small scope K<=6 keys, 2 values; a second search with 7/8 keys and one value; an unmerged enumeration to depth 5/6."+LONG+"maps of 300/700 keys."),
  "C05": dict(engine="E1", ref="8/C05",
    technique="explicit-state BFS over real heapq.Queue histories with multiset/minimality oracle; known-findings differential against a counterfactually repaired build",
    text="All Add/Pop/Remove(i)/Set/Reorder/Clear/NewWithData histories over V values up to N elements explored to closure, merged by heap array; Front/Pop minimality, Remove=Peek, multiset conservation and sorted drain checked at every transition; Sort checked on all short sequences.",
-   note="Small scope (V values, N elements). Known findings F1/F2 are excused only when a textual repair of their call sites makes the same case pass."),
+   note="Small scope (V values, N elements) + an unmerged enumeration to depth 5/6. Known findings F1/F2 are excused only when a textual repair of their call sites makes the same case pass."+LONG+"heap-long, 17..513/2049 elements."),
  "C06": dict(engine="E1", ref="8/C06",
    technique="explicit-state BFS over real heapq.Queue with update callback, last-reported-position oracle",
    text="All histories over distinct elements with a recording update callback; after every transition last reported position == Peek offset for every held element; Add's return value; Remove(pos) removes that element.",
-   note="Small scope; independent of heap-order validity."),
+   note="Small scope + an unmerged enumeration to depth 5/6; independent of heap-order validity."+LONG+"heap-long, 17..1025/4097 elements."),
  "C07": dict(engine="E1", ref="8/C07",
    technique="explicit-state BFS to closure over real queue.Queue objects, slice-deque reference, poisoned-dead-slot twin",
    text="Every reachable (head,n,len,cap) state of the ring buffer up to the length bound from 9 initial capacities, every operation from each, all observers (Len IsEmpty Front Peek(+-) Each Slice) compared with a reference deque; a twin with poisoned dead slots must observe identically.",
-   note="Length bound 24/48; parametricity in the element type; hook reads head/n/len/cap."),
+   note="Length bound 72/200; an unmerged enumeration to depth 7/9; parametricity in the element type; hook reads head/n/len/cap."+LONG+"queue-long: every preallocated capacity 1..40 and around powers of two up to 1025/16385 x every head offset, filled exactly and grown."),
  "C08": dict(engine="E1", ref="8/C08",
    technique="explicit-state BFS over the real cache.Cache+LRU store, list-based LRU reference incl. exact eviction callback sequences; known-findings differential",
    text="All Put/Get/Has/Remove/Clear histories for unit and variable sizes to closure under the key/limit bounds, states merged by heap layout of clock ranks; results, Len, Size and the exact callback sequence compared after every transition.",
-   note="Small scope (limits up to 5 unreduced in quick, key-symmetric reduction beyond). F2 excused only via counterfactual repair."),
+   note="Small scope (limits up to 5 unreduced in quick, key-symmetric reduction beyond) + an unmerged enumeration to depth 5. F2 excused only via counterfactual repair."+LONG+"lru-long: histories of 70,000 / 4M calls (one of 2^31) on limits 2..300."),
  "C09": dict(engine="E3", ref="8/C09",
    technique="stateless model checking of the real Cache under a controlled cooperative scheduler: all schedules within a preemption bound, linearizability search, vector-clock race check at the Store seam, deadlock detection; separate free-running -race pass",
    text="Every schedule (preemption-bounded) of every small workload over 3 keys is executed on the real Cache with its sync import redirected to a scheduler shim; each execution is checked for linearizability against the LRU reference incl. callbacks, Size<=limit, exactly-once eviction reports, happens-before races at the Store seam, deadlock and panics.",
@@ -47,23 +49,23 @@ CHECKS = {
  "C10": dict(engine="E1", ref="8/C10",
    technique="explicit-state BFS over real stack/mlink.Queue/mlink.List+cursors/ring structures with picture-derived reference models, hang watchdog",
    text="All operation histories within length bounds on the real containers; list cursors tracked by predecessor identity; stale cursors must panic 'invalid cursor' without changing the list; ring Join/Pop on every ordered pair of every cycle partition.",
-   note="Small scope (list length <=4/5, 2/3 cursors, ring <=5/6 elements)."),
+   note="Small scope (list length <=5/6, 3/4 cursors, ring <=6/7 elements, stack merged on (len,cap) up to 70/300)."+LONG+"list-long, seq-long (pseudo-random walks through the same alphabets with large bounds), ring-long (8..257/1025 elements)."),
  "C11": dict(engine="E4", ref="8/C11",
    technique="bounded-exhaustive enumeration of all input pairs over small alphabets, script executor + DP LCS oracle",
    text="Every pair of sequences up to the length bounds is run through the real EditScript; validity, span identity, minimality (DP LCS length) and canonical form checked on each.",
-   note="Alphabets of 2-4 symbols, lengths per tier."),
+   note="Alphabets of 2-4 symbols, lengths per tier; both arguments as views of one array."+LONG+"described pairs at sizes around powers of two up to 4097/65537."),
  "C12": dict(engine="E4", ref="8/C12",
    technique="bounded-exhaustive enumeration of all sequences/pairs, DP and 2^n brute-force oracles",
    text="Every sequence/pair within bounds through LCS/LIS/LNDS (+Func variants, reversed comparison); subsequence-ness, monotonicity, optimal length, input unmodified.",
-   note="Small alphabets and lengths."),
+   note="Small alphabets and lengths; aliased arguments; float64 (NaN, signed zeros, infinities) and string element types."+LONG+"described pairs up to 4097/65537, sequences up to 300/2500."),
  "C13": dict(engine="E4", ref="8/C13",
    technique="bounded-exhaustive enumeration of all line-sequence pairs x all context sizes, chunk replay oracle",
    text="Every pair over small alphabets and every n: chunks after New/AddContext/Unify replay exactly to their ranges, context bounded by n, ordering/disjointness, splice gives Right, Edits undisturbed.",
-   note="Alphabets {a,b},{a,b,c}; lengths per tier."),
+   note="Alphabets {a,b},{a,b,c}; lengths per tier; Left and Right as views of one array."+LONG+"files of 12..300/2500 lines with an edit every gap+1 lines, and of 33,000/65,600 lines."),
  "C14": dict(engine="E4", ref="8/C14",
    technique="bounded-exhaustive enumeration of diffs incl. hostile lines: format/parse round trip and reference patch appliers (GNU patch as second verdict)",
    text="Every enumerated diff is formatted (normal/unified/context), parsed back, re-formatted byte-identically and applied to Left by reference appliers written from the diffutils manual; /usr/bin/patch gives a second verdict when present.",
-   note="Reference appliers validated against GNU patch 2.7.6; F5 is a known finding."),
+   note="Reference appliers validated against GNU patch 2.7.6; F5 is a known finding."+LONG+"files of 12..1100/10100 lines, lines of up to 64 KiB / 1 MiB."),
  "C15": dict(engine="E4", ref="8/C15",
    technique="bounded-exhaustive enumeration of byte strings and lists, independent POSIX quoting scanner oracle, real shells as second verdict, call-sequence enumeration for pooled state",
    text="All strings up to the bounds (every byte value) through Quote/Join/Split round trips and an independent scanner proving no special byte is left unquoted; all pairs/triples of calls for pool state.",
@@ -75,11 +77,11 @@ CHECKS = {
  "C17": dict(engine="E4", ref="8/C17",
    technique="bounded-exhaustive enumeration of slices, keep patterns and numeric arguments with naive reference functions and aliasing oracle",
    text="All slices up to the length bound with spare capacity 0..2, all 2^n predicates, all k/n in and around the valid range; contents, order, identity/aliasing, capacity clipping (cap == len) and documented panics.",
-   note="Distinct ints; lengths 0..8/10."),
+   note="Distinct ints; lengths 0..12/16; arguments at the ends of the int range; Stripe over up to 9/11 rows."+LONG+"Partition/Chunks/Batches on lengths 17..257, Rotate up to 130/300."),
  "C18": dict(engine="E1+E4", ref="8/C18",
    technique="exhaustive enumeration of all operand combinations over a 3-element universe incl. nil/empty + BFS over mutation histories",
    text="Every predicate/operation on all operand pairs and argument lists; mutation histories to closure with membership/Len after each step; non-nil-ness and non-aliasing of returned sets.",
-   note="Universe {0,1,2}; map iteration order is the only uncontrolled nondeterminism and the oracle is insensitive to it."),
+   note="Universe {0,1,2} (Intersect also over all 4-lists of the subsets of a 4-element universe; operands aliased with the receiver; Keys on Set-typed arguments); map iteration order is the only uncontrolled nondeterminism and the oracle is insensitive to it."),
  "C19": dict(engine="E2", ref="8/C19",
    technique="exhaustive enumeration of all behaviour-relevant random outcomes (choice tree over the RNG) on the real Counter with exact rational probability propagation",
    text="For every stream within bounds the real Counter is run under every partition class of the random source; exact regime, Len<=size, Count=Len*2^k monotone, and E[Count]==true distinct count exactly (rational arithmetic), plus per-step martingale conditions.",
@@ -87,7 +89,7 @@ CHECKS = {
  "C20": dict(engine="E4", ref="8/C20",
    technique="bounded-exhaustive enumeration of byte slices at all alignments with guard bytes; all strings/cut points; full transitivity cube",
    text="Every length/alignment/zero-pattern for mbits with both guard values; every string over mixed-width runes and every cut for Trunc; all triples for CompareNatural.",
-   note="Lengths per tier; checkptr build for allocation-edge reads."),
+   note="Lengths per tier; checkptr build for allocation-edge reads; digit runs up to 18 digits under common prefixes of every length 0..17."+LONG+"byte slices up to 300/4097."),
 }
 
 def main():
